@@ -136,11 +136,11 @@ func (w *world) canon(cnt simCounters) string {
 	var cs []string
 	w.mu.Lock()
 	for _, c := range w.conns {
+		pend := c.pendingBytesLocked()
 		dead := c.closed && (!w.opt.Disconnects || c.discSent || c.identNid == 0 || !w.nodes[c.srv].up)
-		if dead {
+		if dead && (len(pend) == 0 || !w.nodes[c.srv].up) {
 			continue
 		}
-		pend := c.pendingBytesLocked()
 		cs = append(cs, fmt.Sprintf("%d>%d#%03d cl%v p%s h%s r%s id%d ds%v", c.cli, c.srv, c.seq, c.closed, canonPending(pend), hashBytes(c.held.Bytes()), hashBytes(c.s2c.Bytes()), c.identNid, c.discSent))
 	}
 	var bl []string
